@@ -115,6 +115,49 @@ class Scen:
         return "broker scen %s %s" % (br, ",".join(ev))
 
 
+def esc_answer(b):
+    """bytes/str of an answer -> the scenario-line form (mirror of vbEscAnswer in the Go driver)"""
+    if isinstance(b, str):
+        b = b.encode("latin-1")
+    plain = not b.startswith(b"~") and all(0x20 < c < 0x7f and c not in b",:@" for c in b)
+    return b.decode("latin-1") if plain else "~" + b.hex()
+
+
+def unesc_answer(s):
+    if s.startswith("~"):
+        try:
+            return bytes.fromhex(s[1:])
+        except ValueError:
+            pass
+    return s.encode("latin-1", "replace")
+
+
+def heap_layout(counts):
+    """slice order of a binary min-heap after pushing the (distinct) counts one by one (container/heap.Push: append, sift up)"""
+    h = []
+    for c in counts:
+        h.append(c)
+        j = len(h) - 1
+        while j > 0 and h[(j - 1) // 2] > h[j]:
+            h[(j - 1) // 2], h[j] = h[j], h[(j - 1) // 2]
+            j = (j - 1) // 2
+    return h
+
+
+def removal_class(counts, victim):
+    """what taking `victim` out of the heap built from `counts` needs: 'last' (it is the last element), 'up' (the last
+    element, moved to its place, is smaller than the parent there: sift-up), 'down' (larger than a child there), 'none'"""
+    h = heap_layout(counts)
+    i, n = h.index(victim), len(h) - 1
+    if i == n:
+        return "last"
+    x = h[n]
+    if i > 0 and h[(i - 1) // 2] > x:
+        return "up"
+    kids = [h[k] for k in (2 * i + 1, 2 * i + 2) if k < n]
+    return "down" if any(k < x for k in kids) else "none"
+
+
 def parse_obs(line):
     d = {}
     for tok in line.split(" "):
@@ -278,7 +321,8 @@ def file_label(jlines, tags):
 
 
 def is_fp(sv):
-    return len(sv) == 40 and all(c in "0123456789abcdefABCDEF" for c in sv)
+    # FingerprintFromHexString: the hex of 20 or of 32 bytes
+    return len(sv) in (40, 64) and all(c in "0123456789abcdefABCDEF" for c in sv)
 
 
 def text_load(text):
@@ -581,7 +625,14 @@ def check_history(sc, obs):
             sid = polls[got[ck]]["sid"]
             posted = [x["ans"] for x in answers if x["sid"] == sid]
             if a not in posted:
-                bad.append(("C02", "answer-cross-wired", "C%d got answer %s; its offer went to P%d (sid %s) under which %s were posted" % (ck, a, got[ck], sid, posted)))
+                # the bytes the client received are the bytes SOMEBODY ELSE posted (cross-wired) or bytes nobody posted
+                # (altered on the way: trimmed, truncated, re-encoded ...); answers are compared in the driver's
+                # canonical escaped form (vbEscAnswer: equal strings iff equal bytes)
+                elsewhere = a in [x["ans"] for x in answers]
+                bad.append(("C02", "answer-cross-wired" if elsewhere else "answer-altered",
+                            "C%d got answer %s (bytes %r); its offer went to P%d (sid %s) under which %s were posted%s" % (
+                                ck, a, unesc_answer(a), got[ck], sid, posted,
+                                "" if elsewhere else ": the client did not receive exactly the bytes the proxy posted")))
         if r in ("blocked",) or r.startswith("panic"):
             bad.append(("C04", "client-poll-" + r.split(":")[0], "client poll C%d did not complete: %s" % (ck, r)))
         # the bridge check itself: a client naming a bridge of the list installed at its request (the default bridge when it
@@ -1313,6 +1364,93 @@ def scenarios(rng, tier):
         sid = fresh("sid"); sc.poll(0, sid, "unrestricted"); sc.client(300, "restricted", "{%s}" % fresh("o"))
         sc.answer(200, sid, fresh("ans"), after_poll=0); sc.answer(600, sid, fresh("ans"), after_poll=0); sc.answer(100, fresh("nosuchsid"), fresh("ans"))
         S.append(sc)
+        # answers are opaque byte strings: white space at either end or inside (a real SDP answer ends in CRLF and has CRLF
+        # inside), white space only, JSON/AMP-significant characters - over all three client formats the client must
+        # receive exactly the bytes the proxy posted (key answer-altered)
+        # ("@" stands for a fresh tag; bytes are written as latin-1 characters, non-ASCII ones as the UTF-8 of U+00A0 / U+0085
+        # so that the JSON encodings carry them unchanged)
+        U = lambda x: x.encode("utf-8").decode("latin-1")
+        WS = ["  ", " @", "@ ", "\t@", "@\t", "@\r\n", "\r\n@", "@\n", "\n", "\r\n", " \t\r\n ",
+              "v=0\r\no=- @ 2 IN IP4 0.0.0.0\r\ns=-\r\n", "{\"type\":\"answer\",\"sdp\":\"v=0\\r\\n@\"}\n", "in @ ner", "@\x0bb\x0c", U("\x0b\x0c\xa0") + "@" + U("\x85"),
+              U("\xa0"), "~@", "co,lon:at@eq=", "\"@\"", "<&@>", "@\\n"]
+        for mode in modes:
+            forms = list(WS) if tier != "quick" else WS[:6] + rng.sample(WS[6:], 5)
+            for form in forms:
+                sc = Scen(fresh("anyans"), "answer-opaque-bytes")
+                sid = fresh("sid")
+                sc.poll(0, sid, "unrestricted")
+                sc.client(300, rng.choice(["restricted", "unknown", ""]), "{%s}" % fresh("o"), mode=mode)
+                sc.answer(200, sid, esc_answer(form.replace("@", fresh("ans"))), after_poll=0)
+                S.append(sc)
+        # bridge fingerprints of BOTH accepted lengths (20 and 32 bytes), in the list and named by clients, with pairs
+        # that share their first 20 bytes: each is a bridge of its own (or no bridge at all)
+        hexd = "0123456789ABCDEF"
+        F20 = "".join(rng.choice(hexd) for _ in range(40))
+        X32 = F20 + "".join(rng.choice(hexd) for _ in range(24))           # extends F20
+        G32 = "".join(rng.choice(hexd) for _ in range(64))
+        UF, UX, UG = "wss://fp20.example/", "wss://fp32-ext.example/x", "wss://fp32.example/"
+        DD = (DEFAULT_FP, DEFAULT_URL)
+        fpcases = [([(F20, UF), DD], [X32]),                      # 20-byte listed, its 32-byte extension named: unknown
+                   ([(X32, UX), DD], [F20]),                      # the reverse
+                   ([(G32, UG), DD], [G32[:40], G32[24:], G32]),    # head / tail of a listed 32-byte fingerprint; itself
+                   ([(F20, UF), (X32, UX), DD], [X32, F20]),       # both listed, each with its own address
+                   ([(X32, UX), (F20, UF), DD], [F20, X32]),
+                   ([(G32, UG), (F20, UF)], [G32, F20, X32, "-"])]
+        for blist, named in fpcases:
+            sc = Scen(fresh("fplen"), "bridge-fingerprint-lengths", bridges=blist)
+            waiting = False
+            for j, fp_ in enumerate(named):
+                known = (DEFAULT_FP if fp_ == "-" else fp_) in dict(blist)
+                # a proxy waits whenever a client comes: one naming an unknown bridge must leave it alone (the next client
+                # naming a known bridge is given it), one naming a known bridge is told that bridge's own address
+                if not waiting:
+                    sid = fresh("sid")
+                    pk = sc.poll(j * 800, sid, "unrestricted")
+                    sc.answer(150, sid, fresh("ans"), after_poll=pk)
+                    waiting = True
+                sc.client(j * 800 + 300, rng.choice(["restricted", "unknown"]), "{%s}" % fresh("o"), fp=fp_, mode=rng.choice(["v", "a"]))
+                if known:
+                    waiting = False
+            S.append(sc)
+        # a waiting poll expires at a chosen position INSIDE the heap (the broker's own removal in the timeout branch, not
+        # a scripted container/heap call): one early poll, n-1 late ones of chosen counts, the early one times out, then
+        # clients drain the pool: every hand-over must be the least loaded proxy waiting (not-least-loaded), and the array
+        # heap machine (irun) replays the same history. Patterns are drawn until the removal needs a sift-up (the heap's
+        # last element, moved into the hole, is smaller than the parent there), a sift-down, and neither.
+        pats = [("up", [11, 1, 2, 10, 12, 20, 3])]
+        want = ["up", "up", "down"] if tier == "quick" else ["up"] * 6 + ["down"] * 3 + ["none", "last"]
+        for cls in want:
+            for _try in range(2000):
+                cnts = rng.sample(range(0, 60), rng.randrange(7, 11))
+                if removal_class(cnts, cnts[0]) == cls:
+                    pats.append((cls, cnts))
+                    break
+        for cls, cnts in pats:
+            pool_nat, cl_nats = rng.choice([("unrestricted", ["restricted", "unknown", ""]), ("restricted", ["unrestricted"]), ("unknown", ["unrestricted"])])
+            sc = Scen(fresh("expire"), "poll-expires-inside-heap-" + cls, watchdog=26000)
+            sids = []
+            t1 = 8300
+            for j, cn_ in enumerate(cnts):
+                sid = fresh("sid"); sids.append(sid)
+                sc.poll(0 if j == 0 else t1 + (j - 1) * 150, sid, pool_nat, clients=cn_, ptype=rng.choice(["standalone", "webext", "badge", "iptproxy"]))
+            # the early poll expires at 10 000; the clients come 1.2 s later, one every 400 ms, and drain the pool
+            for j in range(len(cnts) - 1):
+                sc.client(11200 + j * 400, rng.choice(cl_nats), "{%s}" % fresh("o"), mode=rng.choice(modes))
+            for j, sid in enumerate(sids):
+                if j > 0:
+                    sc.answer(100, sid, fresh("ans"), after_poll=j)
+            S.append(sc)
+        # the forced timeout/match race with the waiter DELAYED after the client's pop: a second critical section queues on
+        # the lock between the client and the waiter's timeout branch, so that the client has popped the proxy and offers on
+        # its channel for 400 ms before the waiter (timer fired, queued on the lock) comes to look: the hand-over must
+        # still take place (C04: the poll completes, nothing is left behind; C03: the client is not refused)
+        for cn_, mode, dly in [("restricted", "v", 400), ("unknown", "a", 600)] + ([] if tier == "quick" else [("", "l", 300), ("restricted", "v", 1500)]):
+            sc = Scen(fresh("racedly"), "forced-timeout-match-race-waiter-delayed", watchdog=25000, labels=f1_labels, sequenced=True)
+            sid = fresh("sid"); sc.poll(0, sid, "unrestricted"); sc.lock(9700, 600); sc.client(9780, cn_, "{%s}" % fresh("o"), mode=mode)
+            sc.lock(9860, dly)
+            sc.answer(150, sid, fresh("ans"), after_poll=0)
+            followups(sc, 12500, 2)
+            S.append(sc)
         # the forced timeout/match race (DESIGN F1): client queued on the lock before the waiter's timeout branch; the
         # history then CONTINUES with further exchanges in the same pool (a proxy waits, an eligible client comes: it must
         # not be refused - C03_refusal_iff holds in every state, also the ones after a claimed-at-timeout hand-over)
